@@ -30,7 +30,13 @@ RULE = (
     "evaluated through eval with Python's own precedence. Oracle: explicit dense projection matrices P (transposed "
     "for .T) multiplied with the dense operand, then the same left operation applied; exact equality for plain and "
     "chained slicing (0/1 matrices, integer data), rtol 1e-12 for pending operations; result type must match the "
-    "operand type (ndarray / sparse / AdArray). Non-trivial = at least 2 mapped indices in some slicer and an "
+    "operand type (ndarray / sparse / AdArray). One quarter of the cases are HISTORIES: one slicer object (seeded "
+    "index arrays, all constructor forms, optional .T) applied in sequence - as itself, as .copy(), .T.T or .T - to "
+    "2..5 operands built inside the check from PRNG seeds (vectors, 2-d arrays, sparse matrices in csr / csc / coo / "
+    "lil / dok / dia / bsr, AdArrays) with 2..8, 40..300 or 600..3000 rows and up to 20000 stored entries; consecutive "
+    "sparse operands deliberately share shape and nnz while their row pattern differs (row permutation, entries moved "
+    "between rows) or share the pattern with new values / permuted columns; every application is compared exactly "
+    "with an independently built scipy 0/1 selection matrix times the operand. Non-trivial = at least 2 mapped indices in some slicer and an "
     "operand with >= 2 rows; distinct = hash of spec."
 )
 BUDGET = {"quick": {"cases": 6000, "seconds": 40}, "thorough": {"cases": 400000, "seconds": 1100}}
@@ -39,13 +45,14 @@ LEVEL_TEXT = ("Exploration: thousands of generated slicer configurations, operan
               "operands per run, each compared with the explicit 0/1 projection matrix applied by dense numpy "
               "arithmetic; all constructor forms, transposes, operand kinds and operators are forced by the "
               "generator and their frequencies are reported.")
-LEVEL_NOTE = ("Operands have at most 6 rows; index maps are injective (sets), no repeated indices. Transposed slicers "
+LEVEL_NOTE = ("Entry-by-entry operands have at most 6 rows, seeded history operands up to 3000 rows / 20000 stored "
+              "entries (size-gated code paths above ~20000 entries are not reached); index maps are injective (sets), no repeated indices. Transposed slicers "
               "are not applied to AdArrays (docstring says that raises, the implementation returns P^T y; left "
               "unspecified). Slicers are never re-used after chaining. Finds violations, does not prove absence.")
 DESIGN_REF = "DESIGN.md section 4, C36"
 ASSUMPTIONS = [
     "domain and range indices are duplicate-free (index sets)",
-    "a slicer object is used in one expression only (the repository copies before chaining)",
+    "a slicer object that took part in a chain or pending operation is not re-used (the repository copies before chaining); plain S @ x is repeated on one object in histories",
     "left operands are Python floats, scipy sparse matrices or AdArrays (numpy arrays as left operands are documented as unsupported)",
     "transposed slicers are not applied to AdArrays",
     "division forms use targets without zero entries",
@@ -57,6 +64,8 @@ REQUIRED = {
     "ctor-dom": 0.15, "ctor-rng": 0.15, "ctor-both": 0.15, "transposed": 0.15, "onto-shortcut": 0.05,
     "explicit-rsize": 0.15, "explicit-dsize": 0.15, "unsorted-range": 0.15, "unsorted-domain": 0.15,
     "empty-indices": 0.01, "y-longer-than-domain": 0.05, "sparse-slice-general-path": 0.05,
+    "history": 0.1, "history-equal-shape-nnz": 0.03, "large-operand": 0.02, "history-large": 0.005,
+    "history-via-copy": 0.02, "history-via-T": 0.02, "history-via-TT": 0.02, "history-equal-pattern": 0.01,
 }
 
 
@@ -126,8 +135,65 @@ def _operand(draw, kind, n, ncol, elems):
     return {"kind": "int", "v": draw(st.sampled_from([3, -2, 1]))}
 
 
+SMALL_FMTS = ["csr", "csc", "coo", "lil", "dok", "dia", "bsr"]
+BIG_FMTS = ["csr", "csr", "csc", "coo", "bsr"]
+SEED = st.integers(0, 2 ** 31 - 1)
+
+
+@st.composite
+def _history(draw):
+    """ONE slicer object applied to a sequence of 2..5 operands.  Everything is described by PRNG seeds, shapes
+    and pattern transformations; the operands (up to ~20000 stored entries) are built inside check()."""
+    size = draw(st.sampled_from(["small", "small", "small", "medium", "large", "large"]))
+    if size == "small":
+        n_in, cols_rng, fmts = draw(st.integers(2, 8)), (1, 5), SMALL_FMTS
+    elif size == "medium":
+        n_in, cols_rng, fmts = draw(st.integers(40, 300)), (4, 20), SMALL_FMTS[:3] + ["bsr", "lil"]
+    else:
+        n_in, cols_rng, fmts = draw(st.integers(600, 3000)), (8, 40), BIG_FMTS
+    slicer = {"seeded": True, "seed": draw(SEED), "n_in": n_in,
+              "frac": draw(st.sampled_from([1.0, 0.9, 0.5, 0.5, 0.1])),
+              "mode": draw(st.sampled_from(["dom", "rng", "both", "both"])),
+              "room": draw(st.sampled_from([0, 0, 1, 3])),
+              "rsize": draw(st.sampled_from(["none", "none", "max", "pad"])),
+              "dsize": draw(st.sampled_from(["none", "n"])),
+              "sorted": draw(st.sampled_from([False, False, True])),
+              "T": draw(st.sampled_from([False, False, False, True]))}
+    nops = draw(st.integers(2, 5))
+    ops, prev = [], None
+    for _ in range(nops):
+        kind = draw(st.sampled_from(["rsparse", "rsparse", "rsparse", "rad", "rvec", "rmat"]))
+        via = draw(st.sampled_from(["self", "self", "self", "self", "copy", "TT", "T"]))
+        if kind == "rad" and via == "T":
+            via = "self"
+        op = {"kind": kind, "via": via, "seed": draw(SEED)}
+        if kind in ("rsparse", "rad"):
+            link = prev is not None and prev["via_T"] == (via == "T") and draw(st.sampled_from([True, True, False]))
+            if link:
+                op.update(seed=prev["seed"], cols=prev["cols"], nnz=prev["nnz"],
+                          transform=draw(st.sampled_from(["rowperm", "rowperm", "move", "values", "colperm", "none"])))
+            else:
+                cols = draw(st.integers(*cols_rng))
+                if size == "large":
+                    nnz = draw(st.sampled_from([1000, 1500, 3000, 6000, 12000, 20000, 500]))
+                elif size == "medium":
+                    nnz = draw(st.sampled_from([50, 200, 600, 1000, 1200]))
+                else:
+                    nnz = draw(st.integers(0, 12))
+                op.update(cols=cols, nnz=nnz, transform="none")
+            op["tseed"] = draw(SEED)
+            op["fmt"] = draw(st.sampled_from(fmts))
+            prev = {"seed": op["seed"], "cols": op["cols"], "nnz": op["nnz"], "via_T": via == "T"}
+        elif kind == "rmat":
+            op["cols"] = draw(st.integers(1, 4))
+        ops.append(op)
+    return {"form": "history", "size": size, "slicer": slicer, "ops": ops}
+
+
 @st.composite
 def _spec(draw):
+    if draw(st.sampled_from([False, False, False, True])):
+        return draw(_history())
     form = draw(st.sampled_from(["plain", "plain", "plain", "chain", "chain", "pending", "pending", "pending"]))
     left_op = left_kind = None
     if form == "pending":
@@ -248,10 +314,173 @@ def _compare(got, exp, pp, exact, what):
         cmp(got, exp[1], "dense-values")
 
 
+# ----------------------------------------------------------------------------- histories (seeded operands)
+def expand_slicer(s):
+    """Seeded slicer description -> ordinary slicer spec (index lists)."""
+    g = np.random.default_rng(s["seed"])
+    n_in = s["n_in"]
+    k = max(1, min(n_in, int(round(n_in * s["frac"]))))
+    room = k + (0 if s["room"] == 0 else (s["room"] if n_in <= 8 else s["room"] * (k // 3 + 1)))
+
+    def pick(n):
+        v = g.permutation(n)[:k]
+        return np.sort(v).tolist() if s["sorted"] else v.tolist()
+
+    mode = s["mode"]
+    if not s["T"]:
+        dom = pick(n_in) if mode != "rng" else None
+        rng = pick(room) if mode != "dom" else None
+        dsize = n_in if s["dsize"] == "n" else None
+        rmax = max(rng) + 1 if rng is not None else k
+        rsize = {"none": None, "max": rmax, "pad": rmax + 2}[s["rsize"]]
+    else:
+        dom = pick(room) if mode != "rng" else None
+        rng = pick(n_in) if mode != "dom" else None
+        rsize = n_in if s["dsize"] == "n" else None
+        dmax = max(dom) + 1 if dom is not None else k
+        dsize = {"none": None, "max": dmax, "pad": dmax + 2}[s["rsize"]]
+    return {"dom": dom, "rng": rng, "rsize": rsize, "dsize": dsize, "T": bool(s["T"])}
+
+
+def _pattern(op, rows):
+    """(row, col, values) of the stored entries of a seeded sparse operand with `rows` rows."""
+    cols = op["cols"]
+    nnz = min(op["nnz"], (rows * cols) // 2)
+    g = np.random.default_rng(op["seed"])
+    flat = g.choice(rows * cols, size=nnz, replace=False)
+    r, c = flat // cols, flat % cols
+    v = g.integers(-4, 6, size=nnz).astype(float)
+    t = op["transform"]
+    h = np.random.default_rng(op["tseed"])
+    if t == "rowperm":
+        r = h.permutation(rows)[r]
+    elif t == "colperm":
+        c = h.permutation(cols)[c]
+    elif t == "values":
+        v = h.integers(-4, 6, size=nnz).astype(float)
+    elif t == "move" and nnz:
+        taken = set((r * cols + c).tolist())
+        r = r.copy()
+        for i in h.choice(nnz, size=min(nnz, 50), replace=False).tolist():
+            nr = int(h.integers(0, rows))
+            key = nr * cols + int(c[i])
+            if key not in taken:
+                taken.discard(int(r[i]) * cols + int(c[i]))
+                taken.add(key)
+                r[i] = nr
+    return r.astype(np.int64), c.astype(np.int64), v, (rows, cols)
+
+
+def _seeded_matrix(op, rows):
+    r, c, v, shape = _pattern(op, rows)
+    A = sps.coo_matrix((v, (r, c)), shape=shape)
+    fmt = op["fmt"]
+    if fmt == "bsr":
+        return A.tobsr(blocksize=(1, 1))
+    return A.asformat(fmt)
+
+
+def _sparse_equal(got, exp, tag, what):
+    require(sps.issparse(got), "result-type", f"{what}: expected sparse matrix, got {type(got).__name__}")
+    require(got.shape == exp.shape, "sparse-shape", f"{what}: shape {got.shape} vs {exp.shape}")
+    d = (sps.csr_matrix(got) - sps.csr_matrix(exp)).tocsr()
+    d.eliminate_zeros()
+    if d.nnz:
+        i = int(np.searchsorted(d.indptr, 1, side="left")) - 1
+        raise Violation(tag, f"{what}: {d.nnz} entries differ from P @ A (first in row {i}, "
+                             f"max abs diff {np.abs(d.data).max():g})")
+
+
+def _check_history(spec, pp):
+    mo = pp.matrix_operations
+    sl = expand_slicer(spec["slicer"])
+    dom, rng, ds, rs = effective(sl)
+    S = _build_slicer(sl, mo)
+    onto = sl["dom"] is not None and sl["rng"] is None and sl["rsize"] is None and not sl["T"]
+    labels = {"history", "history-size-" + spec["size"], "ctor-" + ("both" if sl["dom"] is not None and sl["rng"] is not None
+                                                               else "dom" if sl["dom"] is not None else "rng")}
+    if sl["T"]:
+        labels.add("transposed")
+    if onto:
+        labels.add("onto-shortcut")
+    if sl["rsize"] is not None:
+        labels.add("explicit-rsize")
+    if sl["dsize"] is not None:
+        labels.add("explicit-dsize")
+    if list(rng) != sorted(rng):
+        labels.add("unsorted-range")
+    if list(dom) != sorted(dom):
+        labels.add("unsorted-domain")
+    n_in = spec["slicer"]["n_in"]
+    ones = np.ones(len(dom))
+    # independent reference: explicit sparse 0/1 selection matrices built from the index arrays
+    P = sps.csr_matrix((ones, (np.array(rng, dtype=int), np.array(dom, dtype=int))), shape=(rs, n_in))
+    PT = sps.csr_matrix((ones, (np.array(dom, dtype=int), np.array(rng, dtype=int))), shape=(ds, rs))
+    prev = None
+    if len(spec["ops"]) >= 3:
+        labels.add("history-len>=3")
+    for step, op in enumerate(spec["ops"]):
+        via = op["via"]
+        labels.add("history-via-" + via)
+        if via == "self":
+            obj, M, rows = S, P, n_in
+        elif via == "copy":
+            obj, M, rows = S.copy(), P, n_in
+        elif via == "TT":
+            obj, M, rows = S.T.T, P, n_in
+        else:
+            obj, M, rows = S.T, PT, rs
+        what = f"history step {step} ({op}) slicer {spec['slicer']}"
+        g = np.random.default_rng(op["seed"] + 17)
+        kind = op["kind"]
+        labels.add("y-" + {"rsparse": "sparse", "rad": "ad", "rvec": "vec", "rmat": "mat"}[kind])
+        if kind == "rvec":
+            x = g.integers(-4, 6, size=rows).astype(float)
+            got = obj @ x
+            require(isinstance(got, np.ndarray) and got.dtype != object, "result-type", f"{what}: {type(got).__name__}")
+            require_equal(got, M @ x, "dense-values", what)
+            prev = None
+        elif kind == "rmat":
+            x = g.integers(-4, 6, size=(rows, op["cols"])).astype(float)
+            got = obj @ x
+            require(isinstance(got, np.ndarray) and got.dtype != object, "result-type", f"{what}: {type(got).__name__}")
+            require_equal(got, M @ x, "dense-values", what)
+            prev = None
+        else:
+            A = _seeded_matrix(op, rows)
+            Ac = A.tocsr()
+            labels.add("fmt-" + op["fmt"])
+            if Ac.nnz >= 1000:
+                labels.add("large-operand")
+            if not (onto and via != "T"):
+                labels.add("sparse-slice-general-path")
+            sig = (via == "T", Ac.shape, Ac.nnz)
+            if prev is not None and prev[0] == sig:
+                if not np.array_equal(prev[1], Ac.indptr):
+                    labels.add("history-equal-shape-nnz")
+                    if Ac.nnz >= 1000 and via in ("self",) and prev[2] == "self" and not onto:
+                        labels.add("history-large")
+                elif Ac.nnz:
+                    labels.add("history-equal-pattern")
+            prev = (sig, Ac.indptr.copy(), via)
+            if kind == "rsparse":
+                got = obj @ A
+                _sparse_equal(got, M @ Ac, "sparse-values", what)
+            else:
+                val = g.integers(-4, 6, size=rows).astype(float)
+                got = obj @ pp.ad.AdArray(val, A)
+                require(isinstance(got, pp.ad.AdArray), "result-type", f"{what}: expected AdArray, got {type(got).__name__}")
+                require_equal(got.val, M @ val, "ad-val", what)
+                _sparse_equal(got.jac, M @ Ac, "ad-jac", what)
+    return {"labels": sorted(labels), "nontrivial": True}
+
+
 # ----------------------------------------------------------------------------- check
 def check(spec):
     import porepy as pp
 
+    if spec.get("form") == "history":
+        return _check_history(spec, pp)
     mo = pp.matrix_operations
     sl, y, left = spec["slicers"], spec["y"], spec["left"]
     labels = set()
